@@ -17,7 +17,7 @@ if [ -f "$D/demo.rs" ]; then
   demo_dst="$W/$crate/tests/seeded_demo.rs"
   demo_cmd="cargo test -p $pkg --test seeded_demo --offline --target-dir $W/target"
 fi
-run_demo() { cp "$D/demo.rs" "$demo_dst"; ( cd "$W" && $demo_cmd ) > "$W/target/demo.log" 2>&1; local rc=$?; rm -f "$demo_dst"; return $rc; }
+run_demo() { mkdir -p "$(dirname "$demo_dst")"; cp "$D/demo.rs" "$demo_dst"; ( cd "$W" && $demo_cmd ) > "$W/target/demo.log" 2>&1; local rc=$?; rm -f "$demo_dst"; return $rc; }
 clean_demo="-"; mut_demo="-"
 if [ -n "$demo_dst" ]; then run_demo && clean_demo=pass || clean_demo=FAIL; fi
 git -C "$W" apply "$D/patch.diff"
